@@ -6,6 +6,7 @@ import numpy as np
 from hypothesis import strategies as st
 
 from vf.harness import Check
+from vf.gen.util import weighted
 from vf.gen import lens as GL
 from vf.gen.build import build, used_optic
 from vf.gen.edit import edit_strategy, apply_edit
@@ -51,7 +52,7 @@ class C03(Check):
         dist = st.fixed_dictionaries(dict(kind=st.just('dist'), name=st.sampled_from(DISTS), n=st.integers(1, 64),
                                           vx=st.sampled_from([0.0, 0.0, 0.1, 0.35]),
                                           vy=st.sampled_from([0.0, 0.0, 0.2, 0.5]), seed=st.integers(0, 2 ** 16)))
-        return st.one_of(launch, launch, dist)
+        return weighted((2, launch), (1, dist))
 
     def describe(self, case):
         if case['kind'] == 'dist':
